@@ -776,8 +776,14 @@ class Watcher(object):
             # later anyway
             if hasattr(signal, 'SIGKILL'):
                 # We are not smart anymore
-                self.send_signal_process(process, signal.SIGKILL,
-                                         recursive=True)
+                try:
+                    self.send_signal_process(process, signal.SIGKILL,
+                                             recursive=True)
+                except Exception:
+                    # the kill failed (e.g. a process we may not signal):
+                    # it is over, a later kill must not wait for it
+                    process.stopping = False
+                    raise
         if self.stream_redirector:
             self.stream_redirector.remove_redirections(process)
         process.stopping = False
